@@ -499,6 +499,12 @@ def gen_c14_sm9(tier, rng):
         yield ('sm9-out-of-range-candidate', 's9_keygen sign %s,%s' % (b_, g), None)
         yield ('sm9-out-of-range-candidate', 's9_keygen enc %s,%s' % (b_, g), None)
         yield ('sm9-out-of-range-candidate', 's9_exch %s %s %s 16 %s,%s %s -' % (H(ks), hx(b'A'), hx(b'B'), b_, g, good_r(rng)), None)
+    # candidates limb-wise next to the order N (see gens_sm2.limb_neighbours)
+    from .gens_sm2 import limb_neighbours
+    for cand in limb_neighbours(N, rng, 81 if tier == 'thorough' else 27):
+        yield ('sm9-candidate-limbwise-near-order', 's9_keygen %s %s,%s' % (rng.choice(['sign', 'enc', 'signfn', 'encfn']), H(cand), good_r(rng)), None)
+        if cand % 5 == 0 or tier == 'thorough':
+            yield ('sm9-candidate-limbwise-near-order', 's9_exch %s %s %s 16 %s,%s %s -' % (H(ks), hx(b'A'), hx(b'B'), H(cand), good_r(rng), good_r(rng)), None)
     # the second pair of key-generation entry points (free functions generate_*_master_key)
     for b_ in bad + [H(N - 1)]:
         yield ('sm9-out-of-range-candidate-fn', 's9_keygen signfn %s,%s' % (b_, good_r(rng)), None)
